@@ -667,7 +667,10 @@ func classifyReplay(kind, out string) string {
 		}
 		return "inconclusive: the real code dies on the model input, but in a way the replay environment may have caused (" + line + ")"
 	case strings.Contains(out, "panic: test timed out"):
-		return "REPRODUCED: the real code does not terminate on the model input (60 s)"
+		if kind == "decreases" {
+			return "REPRODUCED: the real code does not terminate on the model input (60 s)"
+		}
+		return "inconclusive: the real code did not return within 60 s on the model input (it may be blocked on a channel or a connection the replay does not provide); the violated clause itself was not evaluated"
 	case strings.Contains(out, "REPLAY-VIOLATED"):
 		return "REPRODUCED: " + firstLineWith(out, "REPLAY-VIOLATED")
 	case strings.Contains(out, "REPLAY-RETURNED"):
